@@ -223,6 +223,30 @@ class EngineProc:
                                   stdin=subprocess.PIPE, stdout=subprocess.PIPE, stderr=subprocess.PIPE, text=True, env=env)
 
     def call(self, label, F, n_remove, raw=False, timeout=60, layout=None, prime_n_remove=None):
+        """The compiled pcd kernel writes outside its buffers on some fronts (known finding compiled/pcd/OOB): the heap damage can kill
+        the worker during a LATER, innocent call.  Such calls therefore get a process of their own, and a crash of any other call is
+        attributed to that call only if it also happens in a fresh process."""
+        A = np.asarray(F, dtype=float)
+        risky = self.engine == "compiled" and label == "pcd" and (A.ndim != 2 or A.shape[1] != 2 or coordinate_ties(A))
+        if risky and not getattr(self, "_oneshot", False):
+            one = EngineProc(self.engine, asan=self.asan); one._oneshot = True
+            try:
+                return one._call(label, F, n_remove, raw, timeout, layout, prime_n_remove)
+            finally:
+                one.close()
+        r = self._call(label, F, n_remove, raw, timeout, layout, prime_n_remove)
+        if r.get("crash") and not getattr(self, "_oneshot", False):
+            one = EngineProc(self.engine, asan=self.asan); one._oneshot = True
+            try:
+                r2 = one._call(label, F, n_remove, raw, timeout, layout, prime_n_remove)
+            finally:
+                one.close()
+            if not r2.get("crash"):
+                r2["contaminated_worker_restarted"] = True
+                return r2
+        return r
+
+    def _call(self, label, F, n_remove, raw=False, timeout=60, layout=None, prime_n_remove=None):
         import select
         if self.p is None or self.p.poll() is not None:
             self.start()
